@@ -30,7 +30,7 @@ def c17_case(draw):
     fault = draw(st.sampled_from(mutate.FAULTS + mutate.FAULTS + mutate.WARNINGS))
     uid = draw(st.integers(1, 99))
     place = draw(st.sampled_from(["main", "main", "repeat", "included", "included-deep", "linked2", "linked3", "main-first", "main-last"]))
-    if fault.where in ("top", "adjacent", "top-after-link", "utf8") and place == "repeat":
+    if fault.where in ("top", "adjacent", "top-after-link", "utf8", "cross-file") and place == "repeat":
         place = "main"
     if fault.where == "top-after-link" and place not in ("main", "main-last"):  # a second .link needs the first one in the same main file
         place = "main"
@@ -60,6 +60,10 @@ def build(c):
         before = []
     if c["place"] == "main-last":
         after = []
+    elsewhere = ""
+    if f.where == "cross-file":
+        elsewhere = "\n".join(pre) + "\n"     # goes into a file assembled before the culprit's file
+        pre = []
     if f.where == "adjacent":
         core_lines = pre + [body_line] + post
         pre_far, post_far = [], []
@@ -77,14 +81,18 @@ def build(c):
         tree["main.mac"] = clean
         mains = ["main.mac"]
         culprit = "main.mac"
+        if elsewhere:
+            other = "aaa.mac" if c["uid"] % 2 else "zzz.mac"      # sorts before / after the culprit's name
+            tree[other] = "\tnop\n" + elsewhere
+            mains = [other, "main.mac"]
     elif c["place"] == "included":
-        tree["main.mac"] = "\tnop\n\t.include \"sub/inc.mac\"\n\tnop ; после включения\n"
+        tree["main.mac"] = "\tnop\n" + elsewhere + "\t.include \"sub/inc.mac\"\n\tnop ; после включения\n"
         tree["sub/inc.mac"] = clean
         mains = ["main.mac"]
         culprit = "sub/inc.mac"
     elif c["place"] == "included-deep":
         # include depth 3, the innermost file in another directory, reached from the second linked file
-        tree["first.mac"] = "\tnop\n"
+        tree["first.mac"] = "\tnop\n" + elsewhere
         tree["main.mac"] = "\t.include \"sub/mid.mac\"\n\tnop\n"
         tree["sub/mid.mac"] = "\tnop ; середина\n\t.include \"deep/low.mac\"\n"
         tree["sub/deep/low.mac"] = "\tnop\n\t.include \"../../other/inc.mac\"\n\tnop\n"
@@ -94,7 +102,7 @@ def build(c):
     else:
         n = 2 if c["place"] == "linked2" else 3
         for i in range(n - 1):
-            tree[f"f{i}.mac"] = f"w{i}:\tnop\n\t.word w{i}\n"
+            tree[f"f{i}.mac"] = f"w{i}:\tnop\n\t.word w{i}\n" + (elsewhere if i == 0 else "")
             mains.append(f"f{i}.mac")
         tree["last.mac"] = clean
         mains.append("last.mac")
@@ -200,7 +208,7 @@ def run_shard(spec, ctx):
         # every catalogued kind at every placement class, fixed surroundings, with the CLI renderings
         for f in mutate.FAULTS + mutate.WARNINGS:
             for place in ("main", "repeat", "included", "included-deep", "linked2", "linked3", "main-first", "main-last"):
-                if f.where in ("top", "adjacent", "top-after-link", "utf8") and place == "repeat":
+                if f.where in ("top", "adjacent", "top-after-link", "utf8", "cross-file") and place == "repeat":
                     continue
                 if f.where == "top-after-link" and place not in ("main", "main-last"):
                     continue
